@@ -524,6 +524,15 @@ func (d *c08) verifyWire(final bool) {
 			}
 			j++
 		}
+		// What a failed write leaves in the codec's buffer goes out in front of the next write, so a transient failure
+		// (nothing written, transport usable) can only cost the frames at the END of the history, behind which nothing
+		// was written any more. A gap - a later frame on the wire, an earlier one not - means a queued frame was
+		// dropped without ever being written (sixth round of seeds, w08).
+		for i, f := range frames {
+			if !d.dead && !c08Same(f, d.expect[i]) {
+				c.Failf("frame-skipped-after-transient-error", "flushes failed with a transient error (nothing written, transport usable): frame %d of the history never reached the wire although later ones did (wire opcode*1000+len %v, history %v)", i, c08Ops(frames), c08Ops(d.expect))
+			}
+		}
 		return
 	}
 	for i, f := range frames {
@@ -714,4 +723,12 @@ func (d *c08) directed(v int) {
 		d.read(3)
 		d.localClose(false)
 	}
+}
+
+func c08Ops(fs []wsFrame) []int {
+	var r []int
+	for _, f := range fs {
+		r = append(r, int(f.Opcode)*1000+len(f.Payload))
+	}
+	return r
 }
